@@ -346,7 +346,7 @@ pub fn expanded_items(src: &str) -> Result<Vec<String>, String> {
     Ok(v)
 }
 
-const DERIVE_POOL: &[&str] = &["PartialEq", "Eq", "Hash", "PartialOrd", "Ord", "std::cmp::PartialEq"];
+const DERIVE_POOL: &[&str] = &["PartialEq", "Eq", "Hash", "PartialOrd", "Ord", "std::cmp::PartialEq", "::std::hash::Hash", "::std::cmp::Eq"];
 
 pub fn gen_macro_run(seed: u64, fixtures: &[crate::procsim::CorpusDoc]) -> MacroRun {
     let mut rng = Rng::new(seed);
@@ -421,7 +421,11 @@ pub fn gen_macro_run(seed: u64, fixtures: &[crate::procsim::CorpusDoc]) -> Macro
             o.patches.push((
                 n.clone(),
                 if rng.chance(2, 3) { Some(format!("{n}Patched")) } else { None },
-                if rng.chance(1, 2) { vec!["PartialEq".into()] } else { vec![] },
+                match rng.below(4) {
+                    0 => vec!["PartialEq".into()],
+                    1 => vec!["::std::cmp::PartialEq".into()],
+                    _ => vec![],
+                },
             ));
         }
         if rng.chance(1, 3) {
